@@ -108,7 +108,6 @@ def common_units():
     u.append(raw("specs_bridge", _read("specs_bridge.rs")))
     u.append(raw("specs_lemma_defs", _read("lemma_defs.rs")))
     u.append(raw("specs_guards", _read("specs_guards.rs")))
-    u.append(raw("specs_members", _read("specs_members.rs")))
 
     # ------------------------------------------------------------------ derived Clone (A5)
     u.append(raw("clone_specs", """
@@ -306,6 +305,7 @@ def core_units():
                  ensures=["r.name() =~= construct_expr_wrapper_name_spec(index, expr_index, internal_index)"]))
     u.append(fns(F_NC, fl))
 
+    u.append(raw("specs_members", _read("specs_members.rs")))
     return u
 
 
